@@ -169,7 +169,7 @@ class C15(Check):
                 spec['build'] = 'python'
         if stratum == 'S-dual':
             return {'mode': 'dual', 'spec': spec}
-        gens = rng.randint(1, 4)
+        gens = rng.randint(1, 6 if tier == 'thorough' else 4)
         fault = None
         if stratum == 'S-fault':
             fault = {'at_gen': rng.randint(1, gens), 'errno': rng.choice(['ENOSPC', 'EIO', 'EACCES']), 'short': rng.random() < 0.5}
